@@ -10,6 +10,7 @@ require (
 	github.com/vicanso/elton v1.4.2
 	github.com/vicanso/hes v0.3.9
 	github.com/vicanso/pike v0.0.0
+	gopkg.in/yaml.v2 v2.4.0
 )
 
 require (
@@ -70,7 +71,6 @@ require (
 	google.golang.org/grpc v1.23.0 // indirect
 	google.golang.org/protobuf v1.23.0 // indirect
 	gopkg.in/natefinch/lumberjack.v2 v2.0.0 // indirect
-	gopkg.in/yaml.v2 v2.4.0 // indirect
 )
 
 replace github.com/vicanso/pike => /repo
